@@ -182,7 +182,9 @@ func Generate(rng *rand.Rand, prop, tier string, gomaxprocs int) *Desc {
 	if rng.Intn(6) == 0 {
 		nsched = 2 + rng.Intn(2)
 	}
-	if prop == "C03scale" {
+	// now and then one scheduler with more workers than fit a byte (all of them busy)
+	wideBig := prop != "C03scale" && rng.Intn(150) == 0
+	if prop == "C03scale" || wideBig {
 		nsched = 1
 	}
 	for si := 0; si < nsched; si++ {
@@ -197,8 +199,14 @@ func Generate(rng *rand.Rand, prop, tier string, gomaxprocs int) *Desc {
 		}
 		// wide: more workers than any fixed-size internal buffer is likely to hold, all of them busy
 		wide := prop != "C03scale" && rng.Intn(50) == 0
+		if wideBig {
+			wide = true
+		}
 		if wide {
 			s.N = 65 + rng.Intn(70)
+			if wideBig {
+				s.N = 257 + rng.Intn(60)
+			}
 			nj = s.N + rng.Intn(s.N)
 		}
 		// emitter
